@@ -103,7 +103,7 @@ def forward_fns(r):
     return out
 
 
-@rule("C04.RELAY-TOTAL", ["C04", "C06"], """every relay forwards every MessageActor{dest: Target(id), msg} to actor `id` with an awaited, non-lossy send""", "K1", floor=2)
+@rule("C04.RELAY-TOTAL", ["C04", "C06", "C13"], """every relay forwards every MessageActor{dest: Target(id), msg} to actor `id` with an awaited, non-lossy send""", "K1", floor=2)
 def relay_total(ctx):
     r = ctx.r
     relays = r.relays()
@@ -116,7 +116,7 @@ def relay_total(ctx):
                   f"the forward function uses `{how}`{'' if is_awaited(b, bb) else ' without awaiting it'}: a message can be dropped", props=["C04", "C06"])
     for rel in relays:
         is_watch = _is_watch_relay(r, rel)
-        props = ["C06"] if is_watch else ["C04"]
+        props = ["C06", "C13"] if is_watch else ["C04"]
         lab = short(r.fn_of(rel).name)
         Rm = variant_region(rel, "TargetActorOutputMessage", "MessageActor")
         ctx.need(Rm, f"MessageActor handler in {lab}")
@@ -130,6 +130,11 @@ def relay_total(ctx):
                 good.append(cb)
         ctx.check(bool(good), f"{lab}/MessageActor.Target", [site(rel, b) for b in good] or [rel.loc(min(Rt))],
                   "a message addressed to a target actor is not forwarded (awaited, with the message's own `msg` and id) on every path", props=props)
+        # ... and every MessageActor reaches the test of its destination: nothing before it (a de-duplication, a filter on the message) lets the handler
+        # finish without having looked at `dest`
+        dest_tests = {e.src for e in rel.edges if e.src in Rm and e.label and e.label[0] == "variant" and path_ends(e.label[1], "ActorId")}
+        ctx.check(any(_must_pass(rel, Rm, sb) for sb in dest_tests), f"{lab}/MessageActor.every-message", [site(rel, sb) for sb in sorted(dest_tests)] or [rel.loc(min(Rm))],
+                  "some MessageActor leaves the handler before its destination is looked at: the relay drops messages on a condition of its own", props=props)
 
 
 def _is_watch_relay(r, rel):
